@@ -32,15 +32,18 @@ Definition decode_ethernet (d : bytes) : outcome (jv * Z * bytes) :=
         Ok (datalink_json src' dst' vlan et', et', skipn 14 d')
     else Ok (datalink_json src dst 0 et, et, skipn 14 d).
 
+(* the transport header follows the IP options: IHL counts 32-bit words; an IHL below 5 is taken as 5 *)
+Definition ipv4_hlen (d : bytes) : Z := Z.max 20 ((nthz d 0 mod 16) * 4).
 Definition decode_ipv4 (d : bytes) : outcome (jv * Z * bytes) :=
   if len d <? 20 then Err EShort
+  else if len d <? ipv4_hlen d then Err EShort
   else
     Ok (JObj [("Version", JNum (nthz d 0 / 16)); ("TOS", JNum (nthz d 1)); ("TotalLen", JNum (be16_at d 2));
               ("ID", JNum (be16_at d 4)); ("Flags", JNum (nthz d 6 / 32));
               ("FragOff", JNum ((nthz d 6 mod 32) * 256 + nthz d 7));
               ("TTL", JNum (nthz d 8)); ("Protocol", JNum (nthz d 9)); ("Checksum", JNum (be16_at d 10));
               ("Src", JStr (ip_string (firstn 4 (skipn 12 d)))); ("Dst", JStr (ip_string (firstn 4 (skipn 16 d))))]%string,
-        nthz d 9, skipn 20 d).
+        nthz d 9, skipn (Z.to_nat (ipv4_hlen d)) d).
 
 Definition decode_ipv6 (d : bytes) : outcome (jv * Z * bytes) :=
   if len d <? 40 then Err EShort
